@@ -28,7 +28,7 @@ CHECKS = {
     "C06": (
         "model_checking",
         "explicit-state exploration of the builder's transition graph: every transition s --step--> s' checked against the step applied to the materialised pre-state (same executor on both sides), plus accept/reject equivalence",
-        "For every state at depth <= 1 (thorough: <= 2 on extend/select/drop/rename/order chains) and every outgoing menu entry (core menu + simplification entries: common-target extends, reads of replaced columns, swaps, re-selection of removed columns, checked joins): the chained pipeline must be accepted exactly when the same step is accepted on a fresh table description with the pre-state's columns, and on every multiset of <= 2 input rows its Pandas result must equal the step evaluated on the pre-state's materialised result.",
+        "For every state at depth <= 1 (thorough: <= 2 on extend/select/drop/rename/order chains) and every outgoing menu entry (core menu + simplification entries: common-target extends, reads of replaced columns, swaps, re-selection of removed columns, checked joins): the chained pipeline must be accepted exactly when the same step is accepted on a fresh table description with the pre-state's columns, and on every multiset of <= 2 input rows (quick: the empty table, every single row and every pair of different rows) its Pandas result must equal the step evaluated on the pre-state's materialised result.",
         "Pandas on both sides (executor deviations cancel). Inputs whose answer depends on row order (ties) are skipped via the reference model's tie detection.",
         "DESIGN.md 3/C06",
     ),
@@ -112,7 +112,7 @@ CHECKS = {
     "C10": (
         "model_checking",
         "explicit-state BFS over the real pipeline builder x exhaustive small inputs x exhaustive perturbation menu of every unreported column; metamorphic oracle (result unchanged) on Pandas and SQLite, plus narrowed-replay equality",
-        "Every pipeline reachable in <= 2 builder calls over the core menu (thorough: + <= 2 over the SQL-translation slice; both tiers: + <= 3 over a shared-DAG slice) whose columns_used() leaves some input column unreported is run on all multisets of <= 2 rows and re-run with the unreported columns replaced by all-null, by each constant of the column's domain, reversed and alternating values (thorough: one column at a time as well); the Pandas and the SQLite result must not change; the same history rebuilt over table descriptions narrowed to the reported columns must give the same result on the restricted inputs.",
+        "Every pipeline reachable in <= 2 builder calls over the core menu (thorough: + <= 2 over the SQL-translation slice; both tiers: + <= 3 over a shared-DAG slice) whose columns_used() leaves some input column unreported is run on all multisets of <= 2 rows (quick: the empty table, every single row and two two-row tables) and re-run with the unreported columns replaced by all-null, by each constant of the column's domain, reversed and alternating values (thorough: one column at a time as well); the Pandas and the SQLite result must not change; the same history rebuilt over table descriptions narrowed to the reported columns must give the same result on the restricted inputs.",
         "Metamorphic: no reference model. A narrowed rebuild that the builder rejects because a step names an unreported column is counted, not judged.",
         "DESIGN.md 3/C10",
     ),
@@ -133,7 +133,7 @@ CHECKS = {
     "C19": (
         "model_checking",
         "explicit-state BFS over the real pipeline builder x exhaustive small inputs x index variants x entry points x frame kinds; deep before/after snapshot invariant and run-twice equality",
-        "Every core-menu state at depth <= 1 and every state at depth <= 2 (over a one-entry-per-operator slice; thorough: all inputs and every index variant on every entry point) is evaluated through eval, transform, ex (captured tables), frame >> ops and act_on on all multisets of <= 2 rows as Pandas frames (default, reversed, duplicate-label and string index with a named index; with an extra unused column), Polars eager and Polars lazy frames; a bit-exact snapshot of every caller frame (values, dtypes, columns, index values and name, object identity) must be unchanged afterwards and a second evaluation must return the identical table.",
+        "Every core-menu state at depth <= 1 and every state at depth <= 2 (over a one-entry-per-operator slice; quick: every other slice entry as first step; thorough: all inputs and every index variant on every entry point) is evaluated through eval, transform, ex (captured tables), frame >> ops and act_on on all multisets of <= 2 rows as Pandas frames (default, reversed, duplicate-label and string index with a named index; with an extra unused column), Polars eager and Polars lazy frames; a bit-exact snapshot of every caller frame (values, dtypes, columns, index values and name, object identity) must be unchanged afterwards and a second evaluation must return the identical table.",
         "Snapshots compare cells by repr; attrs/flags ignored. Multi-table pipelines only through eval.",
         "DESIGN.md 3/C19",
     ),
@@ -157,7 +157,7 @@ CHECKS["C27"] = (
 CHECKS["C04"] = (
     "model_checking",
     "explicit-state BFS over the real pipeline builder on a shared-sub-DAG slice x the product of SQL option settings x two dialect texts x exhaustive small inputs; metamorphic oracle (every option setting returns the default setting's table on the same engine)",
-    "Every state at depth <= 3 of a DAG slice (quick: a thinner menu; thorough: the rich menu) - plain, windowed and ordered extends creating / reading / overwriting each other's columns (the SQL-level extend merge), literal-bearing extends, selections and projections, and joins / concatenations whose right side is the state's own earlier prefix as the same object and as an equal rebuilt copy - is translated under every combination of use_with x use_cte_elim x annotate x initial_commas x extend merging (quick: with the default indent plus four settings with other indents; thorough: x three indent strings, 96 settings) for the SQLite dialect and for the PostgreSQL dialect; every distinct text is executed on the SQLite engine on all multisets of <= 2 rows and must return the default setting's table; no setting may fail to translate or execute when the default succeeds.",
+    "Every state at depth <= 3 of a DAG slice (quick: a thinner menu; thorough: the rich menu) - plain, windowed and ordered extends creating / reading / overwriting each other's columns (the SQL-level extend merge), literal-bearing extends, selections and projections, and joins / concatenations whose right side is the state's own earlier prefix as the same object and as an equal rebuilt copy - is translated under every combination of use_with x use_cte_elim x annotate x extend merging (quick: 16 settings, plus four settings that vary initial_commas and the indent string; thorough: x initial_commas x three indent strings, 96 settings) for the SQLite dialect and for the PostgreSQL dialect; every distinct text is executed on the SQLite engine on all multisets of <= 2 rows and must return the default setting's table; no setting may fail to translate or execute when the default succeeds.",
     "PostgreSQL-dialect text is executed on the SQLite engine (the only way CTE elimination can be executed here; it is not a PostgreSQL server); all variants of a dialect run on the same engine so engine semantics cancel. No reference model.",
     "DESIGN.md 3/C04",
 )
